@@ -93,8 +93,11 @@ class Run:
             c = unit.registry[key]
             pins += c.pins()
             want.update(c.want())
-        res = solve.discharge(eng.vcs, axioms, budget_s=unit.budget or self.budget, nproc=self.nproc,
-                              pins=pins or None, want=want or None)
+        if canary:      # a canary only has to fail: small budget, no retries, no models
+            res = solve.discharge(eng.vcs, axioms, budget_s=min(unit.budget or self.budget, 6), nproc=self.nproc, pins=None, want=None, retry_factor=1)
+        else:
+            res = solve.discharge(eng.vcs, axioms, budget_s=unit.budget or self.budget, nproc=self.nproc,
+                                  pins=pins or None, want=want or None)
         out = []
         for vc, r in zip(eng.vcs, res):
             out.append((unit.name + '::' + vc.oid, vc, r))
